@@ -9,6 +9,4 @@ CONSTANTS
   Emit = FALSE
 INIT TInit
 NEXT TNext
-CONSTRAINT HighWater
-POSTCONDITION Accepted
 CHECK_DEADLOCK FALSE
